@@ -626,8 +626,8 @@ func compactFull(v any) string {
 
 func compact(v any) string {
 	b, _ := json.Marshal(v)
-	if len(b) > 600 {
-		return string(b[:600]) + "…"
+	if len(b) > 300 {
+		return string(b[:300]) + "…"
 	}
 	return string(b)
 }
